@@ -687,3 +687,99 @@ fn c13_from_epoch_secret() {
     check_epoch_secrets(&p, 0, &epoch_secret, tree_size, &r);
     assert!(r.joiner_secret.0.is_empty());
 }
+
+// ---- TEMP experiments
+#[kani::proof]
+#[kani::stub(zeroize::optimization_barrier, noop_barrier)]
+#[kani::unwind(12)]
+fn x1_exact() {
+    let p = GhostProvider::new();
+    let secret = any_exact::<2>();
+    let label = any_exact::<4>();
+    let r = kdf_derive_secret(&p, &secret, &label);
+    assert!(r.is_ok());
+    let o = r.unwrap();
+    assert!(p.calls() == 1);
+    assert!(p.is(0, Op::Expand, &secret, &rfc_kdf_label(NH as u16, &label, &[]), NH));
+    assert!(is_out(&o, 1, NH));
+}
+
+#[kani::proof]
+#[kani::stub(zeroize::optimization_barrier, noop_barrier)]
+#[kani::unwind(12)]
+fn x2_minimal() {
+    let p = GhostProvider::new();
+    let secret = [1u8, 2];
+    let label = [1u8, 2, 3, 4];
+    let r = kdf_derive_secret(&p, &secret, &label);
+    assert!(p.calls() == 1);
+    core::mem::forget(r);
+}
+
+#[kani::proof]
+#[kani::stub(zeroize::optimization_barrier, noop_barrier)]
+#[kani::unwind(12)]
+fn x3_symlen_nocheck() {
+    let p = GhostProvider::new();
+    let secret = any_exact::<2>();
+    let label = any_bytes::<4>();
+    let r = kdf_derive_secret(&p, &secret, &label);
+    assert!(r.is_ok());
+    assert!(p.calls() == 1);
+    core::mem::forget(r);
+}
+
+fn x4_body(label: &[u8]) {
+    let p = GhostProvider::new();
+    let secret = any_exact::<2>();
+    let r = kdf_derive_secret(&p, &secret, label);
+    assert!(r.is_ok());
+    let o = r.unwrap();
+    assert!(p.calls() == 1);
+    assert!(p.is(0, Op::Expand, &secret, &rfc_kdf_label(NH as u16, label, &[]), NH));
+    assert!(is_out(&o, 1, NH));
+}
+
+#[kani::proof]
+#[kani::stub(zeroize::optimization_barrier, noop_barrier)]
+#[kani::unwind(12)]
+fn x4_arms() {
+    let l: [u8; 4] = kani::any();
+    let n: usize = kani::any();
+    match n {
+        0 => x4_body(&l[..0]),
+        1 => x4_body(&l[..1]),
+        2 => x4_body(&l[..2]),
+        3 => x4_body(&l[..3]),
+        4 => x4_body(&l[..4]),
+        _ => {}
+    }
+}
+
+#[kani::proof]
+#[kani::stub(zeroize::optimization_barrier, noop_barrier)]
+#[kani::unwind(12)]
+fn x5_symlen_check() {
+    let p = GhostProvider::new();
+    let secret = any_exact::<2>();
+    let label = any_bytes::<4>();
+    let r = kdf_derive_secret(&p, &secret, &label);
+    assert!(r.is_ok());
+    assert!(p.calls() == 1);
+    assert!(p.is(0, Op::Expand, &secret, &rfc_kdf_label(NH as u16, &label, &[]), NH));
+    core::mem::forget(r);
+}
+
+#[kani::proof]
+#[kani::stub(zeroize::optimization_barrier, noop_barrier)]
+#[kani::unwind(12)]
+fn x6_symsecret() {
+    let p = GhostProvider::new();
+    let secret = any_bytes::<4>();
+    let label = any_exact::<4>();
+    let r = kdf_derive_secret(&p, &secret, &label);
+    assert!(r.is_ok());
+    assert!(p.calls() == 1);
+    assert!(p.is(0, Op::Expand, &secret, &rfc_kdf_label(NH as u16, &label, &[]), NH));
+    core::mem::forget(r);
+}
